@@ -198,8 +198,8 @@ Proof. intros (a & -> & Ha). now rewrite consumed_app. Qed.
 Lemma take_prefix_spec s bl hb relop s2 : take_prefix s = (bl, hb, relop, s2) ->
   consumes s s2 /\ bl = is 33 (peek s) /\ hb = (is 33 (peek s) && is 33 (peek1 s)).
 Proof.
-  unfold take_prefix.
-  destruct (if is 33 (peek s) then _ else _) as [[bl' hb'] s1] eqn:E1.
+  unfold take_prefix. destruct (take_block s) as [[bl' hb'] s1] eqn:E1. unfold take_block in E1.
+  destruct (take_op s1) as [relop' s2'] eqn:E2. unfold take_op in E2. intros E. injection E as <- <- <- <-. revert E2.
   assert (H1 : consumes s s1 /\ bl' = is 33 (peek s) /\ hb' = (is 33 (peek s) && is 33 (peek1 s))).
   { destruct (is 33 (peek s)) eqn:Ea.
     - assert (consumes s (tl s)) by (eapply consumes_tl_is; eauto; lia).
@@ -214,16 +214,16 @@ Proof.
   { intros n m Hn Hl Hm Hlm. eapply consumes_trans; [eapply Ht; eauto|]. apply (consumes_tl_is m); auto.
     destruct s1 as [|x [|y r]]; cbn in *; auto. }
   destruct (is 126 (peek s1)) eqn:E126.
-  { intros E. injection E as <- <- <- <-. repeat split. eapply Ht; eauto. lia. }
+  { intros E. injection E as <- <-. repeat split. eapply Ht; eauto. lia. }
   destruct (is 61 (peek s1)) eqn:E61.
-  { intros E. injection E as <- <- <- <-. repeat split. eapply Ht; eauto. lia. }
+  { intros E. injection E as <- <-. repeat split. eapply Ht; eauto. lia. }
   destruct (is 60 (peek s1)) eqn:E60.
-  { destruct (is 61 (peek1 s1)) eqn:E61'; intros E; injection E as <- <- <- <-; repeat split.
+  { destruct (is 61 (peek1 s1)) eqn:E61'; intros E; injection E as <- <-; repeat split.
     - eapply (Htt 60 61); eauto; lia. - eapply Ht; eauto; lia. }
   destruct (is 62 (peek s1)) eqn:E62.
-  { destruct (is 61 (peek1 s1)) eqn:E61'; intros E; injection E as <- <- <- <-; repeat split.
+  { destruct (is 61 (peek1 s1)) eqn:E61'; intros E; injection E as <- <-; repeat split.
     - eapply (Htt 62 61); eauto; lia. - eapply Ht; eauto; lia. }
-  intros E; injection E as <- <- <- <-. repeat split. exact Hc.
+  intros E; injection E as <- <-. repeat split. exact Hc.
 Qed.
 
 Lemma slot_op_consumes slot sub r a b c d : slot_op slot sub r = (a, b, c, d) -> consumes r d.
